@@ -240,3 +240,111 @@ func HasRaw(e *Expr) bool {
 	}
 	return HasRaw(e.E) || HasRaw(e.Arg) || HasRaw(e.Els)
 }
+
+// CloneExpr / CloneQuery / CloneFrom make deep copies (including the non-serialised P / W / hint fields).
+func CloneExpr(e *Expr) *Expr {
+	if e == nil {
+		return nil
+	}
+	c := *e
+	if e.V != nil {
+		v := *e.V
+		c.V = &v
+	}
+	c.A = nil
+	for _, a := range e.A {
+		c.A = append(c.A, CloneExpr(a))
+	}
+	c.List = nil
+	for _, a := range e.List {
+		c.List = append(c.List, CloneExpr(a))
+	}
+	c.Whens = nil
+	for _, w := range e.Whens {
+		c.Whens = append(c.Whens, [2]*Expr{CloneExpr(w[0]), CloneExpr(w[1])})
+	}
+	c.E, c.Arg, c.Els, c.Q = CloneExpr(e.E), CloneExpr(e.Arg), CloneExpr(e.Els), CloneQuery(e.Q)
+	return &c
+}
+
+func CloneFrom(f *From) *From {
+	if f == nil {
+		return nil
+	}
+	c := *f
+	c.L, c.R, c.On, c.Q = CloneFrom(f.L), CloneFrom(f.R), CloneExpr(f.On), CloneQuery(f.Q)
+	return &c
+}
+
+func CloneQuery(q *Query) *Query {
+	if q == nil {
+		return nil
+	}
+	c := *q
+	c.From, c.Where, c.Having = CloneFrom(q.From), CloneExpr(q.Where), CloneExpr(q.Having)
+	c.Group, c.Proj = nil, nil
+	for _, e := range q.Group {
+		c.Group = append(c.Group, CloneExpr(e))
+	}
+	for _, e := range q.Proj {
+		c.Proj = append(c.Proj, CloneExpr(e))
+	}
+	if c.Group == nil {
+		c.Group = []*Expr{}
+	}
+	if c.Proj == nil {
+		c.Proj = []*Expr{}
+	}
+	c.Order = append([]Ord{}, q.Order...)
+	c.L, c.R = CloneQuery(q.L), CloneQuery(q.R)
+	return &c
+}
+
+// WalkExprs calls f on every expression node reachable from q.
+func WalkExprs(q *Query, f func(e *Expr)) {
+	if q == nil {
+		return
+	}
+	var fe func(e *Expr)
+	var ff func(fr *From)
+	fe = func(e *Expr) {
+		if e == nil {
+			return
+		}
+		f(e)
+		for _, a := range e.A {
+			fe(a)
+		}
+		for _, a := range e.List {
+			fe(a)
+		}
+		for _, w := range e.Whens {
+			fe(w[0])
+			fe(w[1])
+		}
+		fe(e.E)
+		fe(e.Arg)
+		fe(e.Els)
+		WalkExprs(e.Q, f)
+	}
+	ff = func(fr *From) {
+		if fr == nil {
+			return
+		}
+		ff(fr.L)
+		ff(fr.R)
+		fe(fr.On)
+		WalkExprs(fr.Q, f)
+	}
+	ff(q.From)
+	fe(q.Where)
+	fe(q.Having)
+	for _, e := range q.Proj {
+		fe(e)
+	}
+	for _, e := range q.Group {
+		fe(e)
+	}
+	WalkExprs(q.L, f)
+	WalkExprs(q.R, f)
+}
